@@ -40,8 +40,9 @@ type c16Op struct {
 	Side    int `json:"side"` // 0 = A, 1 = B
 	Tube    int `json:"tube"`
 	Kind    int `json:"kind"` // 0 write 1 read 2 close 3 waitforclose 4 setdeadline 5 stop-muxer 6 close-then-wait
-	N       int `json:"n"`
+	N       int `json:"n"` // write: number of bytes; 0: a zero-length write (empty slice), -1: a zero-length write (nil slice)
 	DelayMs int `json:"delay"`
+	Via     int `json:"via,omitempty"` // write on an unreliable tube: 0 Write, 1 WriteMsgUDP
 }
 
 type c16Yield struct {
@@ -66,6 +67,32 @@ type c16Case struct {
 	// Preload: data written (on the still faithful network, before the program starts) that the peer leaves
 	// unread, so that the program's lifecycle operations meet tubes with buffered, not yet read data.
 	Preload []c16Pre `json:"preload,omitempty"`
+	// Replays: late / duplicated copies of initiation datagrams (REQ, RESP) that really crossed the case's network
+	// (recorded from the moment the muxers exist), delivered once more to the side they were addressed to - at a drawn
+	// time of the program or when a Muxer.Stop reaches a drawn phase (a datagram network may duplicate and delay).
+	Replays []c16Replay `json:"replays,omitempty"`
+	// SlowReapUs > 0: every reaper visit (the goroutine that removes a closed tube from its muxer's table) is
+	// delayed by that much, so that closed tubes stay listed for a while, as they do behind a slow scheduler.
+	SlowReapUs int `json:"slowReapUs,omitempty"`
+}
+
+type c16Replay struct {
+	To    int `json:"to"`    // the RECEIVING side (0 = A, 1 = B)
+	Kind  int `json:"kind"`  // 0: a recorded REQ datagram, 1: a recorded RESP datagram
+	Which int `json:"which"` // which of the recorded ones (modulo their number at the moment of delivery)
+	// Point < 0: delivered AtMs after the program began. Otherwise: delivered when yield point c16ReplayPoints[Point]
+	// is reached for the Hit-th time; the goroutine that reached the point then pauses ThenUs (all these points are
+	// lock-free), which gives the receiving muxer time to look at the datagram within that phase.
+	Point  int `json:"point"`
+	Hit    int `json:"hit"`
+	AtMs   int `json:"atMs"`
+	ThenUs int `json:"thenUs"`
+}
+
+// phases of Muxer.Stop at which a replayed datagram may be delivered (all outside any lock)
+var c16ReplayPoints = []string{
+	"tubes.Muxer.Stop.enter", "tubes.Muxer.Stop.stopping", "tubes.Muxer.Stop.tubesClosed", "tubes.Muxer.Stop.queuesClosed",
+	"tubes.Muxer.Stop.forceTimer",
 }
 
 type c16Pre struct {
@@ -213,14 +240,25 @@ func (r *c16Run) doOp(op c16Op, tag string) {
 		tb.wsem[op.Side] <- struct{}{}
 		defer func() { <-tb.wsem[op.Side] }()
 		var data []byte
-		if tube.IsReliable() {
+		switch {
+		case op.N < 0: // zero-length write, nil slice
+		case op.N == 0: // zero-length write, empty slice
+			data = []byte{}
+		case tube.IsReliable():
 			data = vlib.Fill(c16Seed(ti, op.Side), tb.woff[op.Side]+op.N)[tb.woff[op.Side]:]
-		} else {
+		default:
 			data = c16Msg(ti, op.Side, tb.woff[op.Side], op.N)
 		}
-		n, err := tube.Write(data)
+		var n int
+		var err error
+		if ut, ok := tube.(*Unreliable); ok && op.Via == 1 {
+			n, _, err = ut.WriteMsgUDP(data, nil, nil) // the other entry point of an unreliable tube
+		} else {
+			n, err = tube.Write(data)
+		}
 		if closedBefore && err == nil {
-			r.fail("C16:write-succeeds-after-local-close", "%s: Write returned (%d, nil) although Close had already returned on this end", key, n)
+			// "after a tube is closed locally, writes fail" - whatever their length
+			r.fail("C16:write-succeeds-after-local-close", "%s: a write of %d bytes returned (%d, nil) although Close had already returned on this end", key, len(data), n)
 			return
 		}
 		if err == nil {
@@ -294,6 +332,19 @@ func (r *c16Run) doOp(op c16Op, tag string) {
 	}
 }
 
+// emptyWriter: the program has a zero-length write of that side on that tube (on an unreliable tube it is a message
+// of length 0, which the peer may then legitimately read).
+func (r *c16Run) emptyWriter(tube, side int) bool {
+	for _, pr := range r.c.Procs {
+		for _, op := range pr {
+			if op.Kind == 0 && op.N <= 0 && op.Side == side && op.Tube%len(r.tubes) == tube {
+				return true
+			}
+		}
+	}
+	return false
+}
+
 func (r *c16Run) multiReader(tube, side int) bool {
 	n := 0
 	for _, pr := range r.c.Procs {
@@ -353,6 +404,67 @@ func c16Scenario(c c16Case, v *vlib.Verdict) {
 		return memconn.Decision{}, false
 	}
 	r.p.Net.P[0], r.p.Net.P[1] = lossy, lossy
+	// ---- initiation datagrams (REQ / RESP) that cross the network are recorded per direction, from the start, whatever
+	// their fate: a copy of one of them may arrive once more later (c.Replays)
+	var recMu sync.Mutex
+	var rec [2][2][][]byte // [direction][0 REQ, 1 RESP]
+	replayLabels := map[string]bool{}
+	if len(c.Replays) > 0 {
+		r.p.Net.OnSend = func(dir int, pkt []byte, sent time.Duration, dlv []time.Duration) {
+			if len(pkt) < 2 {
+				return
+			}
+			k := -1
+			if pkt[1]&(1<<REQIdx) != 0 {
+				k = 0
+			} else if pkt[1]&(1<<RESPIdx) != 0 {
+				k = 1
+			}
+			if k < 0 {
+				return
+			}
+			recMu.Lock()
+			if len(rec[dir][k]) < 64 {
+				rec[dir][k] = append(rec[dir][k], pkt)
+			}
+			recMu.Unlock()
+		}
+	}
+	replay := func(rp c16Replay, where string) {
+		to := rp.To & 1
+		recMu.Lock()
+		var pkt []byte
+		if list := rec[1-to][rp.Kind&1]; len(list) > 0 {
+			pkt = list[rp.Which%len(list)]
+		}
+		recMu.Unlock()
+		if pkt == nil {
+			return
+		}
+		e, m := r.p.Net.A, r.p.MA
+		if to == 1 {
+			e, m = r.p.Net.B, r.p.MB
+		}
+		// classification only (white box): what does the copy meet?
+		lab := "replayed-" + []string{"REQ", "RESP"}[rp.Kind&1] + ":" + where
+		if !e.Closed() {
+			switch m.state.Load() {
+			case muxerStopping:
+				lab += ":muxer-stopping"
+			case muxerStopped:
+				lab += ":muxer-queues-closed-receiver-running"
+			}
+			if _, listed := m.getTube(pkt[1]&(1<<RELIdx) != 0, pkt[0]); listed {
+				lab += ":tube-listed"
+			}
+		} else {
+			lab += ":connection-closed"
+		}
+		recMu.Lock()
+		replayLabels[lab] = true // (handed to the verdict by the scenario goroutine at the end)
+		recMu.Unlock()
+		e.Inject(pkt)
+	}
 	// ---- establish the tubes on a faithful network
 	for i, tc := range c.Tubes {
 		cr, ac := r.p.MA, r.p.MB
@@ -450,15 +562,35 @@ func c16Scenario(c c16Case, v *vlib.Verdict) {
 		}
 		sched[pt][y.Hit] = y.Us
 	}
+	replayAt := map[string][]c16Replay{}
+	for _, rp := range c.Replays {
+		if rp.Point >= 0 {
+			pt := c16ReplayPoints[rp.Point%len(c16ReplayPoints)]
+			replayAt[pt] = append(replayAt[pt], rp)
+		}
+	}
 	verifhook.Set(func(point string) {
 		m := sched[point]
-		if m == nil {
+		rps := replayAt[point]
+		slowReap := c.SlowReapUs > 0 && point == "tubes.Muxer.reap.closed"
+		if m == nil && rps == nil && !slowReap {
 			return
 		}
 		hmu.Lock()
 		k := hits[point]
 		hits[point]++
 		hmu.Unlock()
+		for _, rp := range rps {
+			if rp.Hit == k {
+				replay(rp, strings.TrimPrefix(point, "tubes.Muxer."))
+				if rp.ThenUs > 0 {
+					time.Sleep(time.Duration(rp.ThenUs) * time.Microsecond)
+				}
+			}
+		}
+		if slowReap {
+			time.Sleep(time.Duration(c.SlowReapUs) * time.Microsecond)
+		}
 		d, ok := m[k]
 		if !ok {
 			return
@@ -495,6 +627,19 @@ func c16Scenario(c c16Case, v *vlib.Verdict) {
 	}
 	if anyLate {
 		v.Label("with-late-tubes")
+	}
+	if len(c.Replays) > 0 {
+		v.Label("with-replayed-initiation-datagrams")
+		for _, rp := range c.Replays {
+			if rp.Point < 0 {
+				rp := rp
+				time.AfterFunc(time.Duration(rp.AtMs)*time.Millisecond, func() { replay(rp, "at-drawn-time") })
+			}
+		}
+	}
+	// (a copy of a request whose tube is gone meanwhile opens a further incarnation on the accepting side: the
+	// applications keep accepting in these cases too, as a session loop does)
+	if anyLate || len(c.Replays) > 0 {
 		for side, m := range []*Muxer{r.p.MA, r.p.MB} {
 			go func(side int, m *Muxer) {
 				for {
@@ -692,9 +837,16 @@ func c16Scenario(c c16Case, v *vlib.Verdict) {
 				}
 				multi := r.multiReader(ti, side)
 				go func(t Tube, ti, side int) {
-					if _, err := t.Write(make([]byte, 16)); err == nil {
-						done <- "Write succeeded"
-						return
+					// writes fail, whatever their length
+					for _, w := range [][]byte{nil, {}, make([]byte, 16)} {
+						if _, err := t.Write(w); err == nil {
+							if len(w) == 0 {
+								done <- "zero-length Write succeeded"
+							} else {
+								done <- "Write succeeded"
+							}
+							return
+						}
 					}
 					buf := make([]byte, 1<<16)
 					drained := 0
@@ -794,6 +946,11 @@ func c16Scenario(c c16Case, v *vlib.Verdict) {
 	if len(c.Yields) > 0 {
 		v.Label("with-yield-schedule")
 	}
+	recMu.Lock()
+	for _, lab := range slicesSortedKeys(replayLabels) {
+		v.Label(lab)
+	}
+	recMu.Unlock()
 }
 
 // afterShutdownUnreliable judges "after a tube is closed locally, writes fail and reads return buffered data and then
@@ -802,8 +959,18 @@ func c16Scenario(c c16Case, v *vlib.Verdict) {
 // in the tube's receive queue; they are copied out (and put back in the same order) and then exactly those messages,
 // in that order, are demanded from Read before end-of-stream, and nothing after it. "" = fine.
 func (r *c16Run) afterShutdownUnreliable(ut *Unreliable, ti, side int) string {
-	if _, err := ut.Write(c16Msg(0, 0, 0, 16)); err == nil {
-		return "Write succeeded"
+	// writes fail, whatever their length and whichever entry point is used
+	for _, w := range [][]byte{nil, {}, c16Msg(0, 0, 0, 16)} {
+		what := "Write succeeded"
+		if len(w) == 0 {
+			what = "zero-length Write succeeded"
+		}
+		if _, err := ut.Write(w); err == nil {
+			return what
+		}
+		if _, _, err := ut.WriteMsgUDP(w, nil, nil); err == nil {
+			return what
+		}
 	}
 	var snap [][]byte
 snapshot:
@@ -834,7 +1001,7 @@ snapshot:
 			if !bytes.Equal(buf[:n], snap[got]) {
 				return fmt.Sprintf("buffered messages altered or out of order: Read %d returned %d bytes, the %d-byte message buffered at that position was expected", got, n, len(snap[got]))
 			}
-			if !c16MsgOK(buf[:n], ti, 1-side) {
+			if !c16MsgOK(buf[:n], ti, 1-side) && !(n == 0 && r.emptyWriter(ti, 1-side)) {
 				return fmt.Sprintf("Read returns a foreign message: %d bytes that the peer never wrote on this tube", n)
 			}
 			got++
@@ -985,9 +1152,13 @@ func c16Gen(t *rapid.T) c16Case {
 		op.Kind = rapid.SampledFrom([]int{0, 0, 1, 1, 2, 2, 2, 3, 4, 5, 6, 6}).Draw(t, "kind")
 		switch op.Kind {
 		case 0:
-			op.N = rapid.SampledFrom([]int{1, 100, 32768, 32769, 200000}).Draw(t, "n")
+			// (0 and -1: zero-length writes, empty and nil slice)
+			op.N = rapid.SampledFrom([]int{1, 100, 32768, 32769, 200000, 0, -1}).Draw(t, "n")
 			if !c.Tubes[op.Tube].Rel && op.N > 32768 {
 				op.N = 32768
+			}
+			if !c.Tubes[op.Tube].Rel && rapid.IntRange(0, 3).Draw(t, "via") == 0 {
+				op.Via = 1
 			}
 		case 4:
 			op.N = rapid.SampledFrom([]int{0, 100, 5000}).Draw(t, "dl")
@@ -1029,6 +1200,26 @@ func c16Gen(t *rapid.T) c16Case {
 			c.Preload = append(c.Preload, c16Pre{Tube: ti, Side: side, Count: cnt, N: n})
 		}
 	}
+	// one case in four: late / duplicated copies of initiation datagrams, at drawn times or at drawn phases of a
+	// Muxer.Stop (weight on the phase in which the queues are closed and the receiver still reads), half of them with
+	// a slow reaper (closed tubes stay listed)
+	if rapid.IntRange(0, 3).Draw(t, "replays") == 0 {
+		c.Replays = rapid.SliceOfN(rapid.Custom(func(t *rapid.T) c16Replay {
+			rp := c16Replay{To: rapid.IntRange(0, 1).Draw(t, "to"), Kind: rapid.SampledFrom([]int{0, 0, 1}).Draw(t, "rkind"),
+				Which: rapid.IntRange(0, 5).Draw(t, "which")}
+			rp.Point = rapid.SampledFrom([]int{3, 3, 3, 3, 2, 1, 0, 4, -1, -1, -1}).Draw(t, "rpoint")
+			if rp.Point < 0 {
+				rp.AtMs = rapid.SampledFrom([]int{0, 1, 20, 400, 1000, 1500, 3000}).Draw(t, "ratMs")
+			} else {
+				rp.Hit = rapid.IntRange(0, 2).Draw(t, "rhit")
+				rp.ThenUs = rapid.SampledFrom([]int{0, 100, 5000, 400000}).Draw(t, "rthen")
+			}
+			return rp
+		}), 1, 4).Draw(t, "replayList")
+		if rapid.Bool().Draw(t, "slowReap") {
+			c.SlowReapUs = rapid.SampledFrom([]int{5000, 400000, 1200000}).Draw(t, "slowReapUs")
+		}
+	}
 	c.Graceful = rapid.IntRange(0, 2).Draw(t, "graceful") == 0
 	if c.Graceful {
 		c.DeadAtMs, c.FailSide, c.TimeoutMs = -1, -1, 0
@@ -1067,4 +1258,13 @@ func c16Gen(t *rapid.T) c16Case {
 func TestVerifC16Programs(t *testing.T) {
 	vQuiet()
 	vlib.Drive(t, vlib.Spec[c16Case]{ID: "C16", Quick: 12000, Gen: c16Gen, Run: c16RunFn(t)})
+}
+
+func slicesSortedKeys(m map[string]bool) []string {
+	var out []string
+	for k := range m {
+		out = append(out, k)
+	}
+	sort.Strings(out)
+	return out
 }
